@@ -643,7 +643,11 @@ func main() {
 	p.WriteString("package p\n\nimport \"corpus/ext\"\n\nvar _ ext.XN\n\n")
 	for _, d := range env.Decls {
 		if d.Pkg == "" {
-			fmt.Fprintf(&p, "type %s %s\n", d.Name, d.Under.Go(env, ""))
+			if d.Src != "" {
+				p.WriteString(d.Src + "\n")
+			} else {
+				fmt.Fprintf(&p, "type %s %s\n", d.Name, d.Under.Go(env, ""))
+			}
 			if d.Methods != "" {
 				p.WriteString("\n" + gen.MethodSrc(d))
 			}
